@@ -31,6 +31,9 @@ type bhSystem interface {
 	build(parts []*bpart) error // NewPlane / NewVolume
 	reset() error
 	forceOn(p *bpart, theta float64, f forceFn) vec3
+	// setParticles replaces the exported Particles field of the built system
+	// (a nil slice if asNil); the caller must Reset afterwards.
+	setParticles(parts []*bpart, asNil bool)
 }
 
 type plane2 struct{ q *barneshut.Plane }
@@ -45,6 +48,17 @@ func (s *plane2) build(parts []*bpart) error {
 	return err
 }
 func (s *plane2) reset() error { return s.q.Reset() }
+func (s *plane2) setParticles(parts []*bpart, asNil bool) {
+	if asNil {
+		s.q.Particles = nil
+		return
+	}
+	ps := make([]barneshut.Particle2, len(parts))
+	for i, p := range parts {
+		ps[i] = p
+	}
+	s.q.Particles = ps
+}
 func (s *plane2) forceOn(p *bpart, theta float64, f forceFn) vec3 {
 	r := s.q.ForceOn(p, theta, func(p1, p2 barneshut.Particle2, m1, m2 float64, v r2.Vec) r2.Vec {
 		var b2 *bpart
@@ -69,6 +83,17 @@ func (s *volume3) build(parts []*bpart) error {
 	return err
 }
 func (s *volume3) reset() error { return s.q.Reset() }
+func (s *volume3) setParticles(parts []*bpart, asNil bool) {
+	if asNil {
+		s.q.Particles = nil
+		return
+	}
+	ps := make([]barneshut.Particle3, len(parts))
+	for i, p := range parts {
+		ps[i] = p
+	}
+	s.q.Particles = ps
+}
 func (s *volume3) forceOn(p *bpart, theta float64, f forceFn) vec3 {
 	r := s.q.ForceOn(p, theta, func(p1, p2 barneshut.Particle3, m1, m2 float64, v r3.Vec) r3.Vec {
 		var b2 *bpart
